@@ -265,7 +265,7 @@ def run_l3_case(ctx, spec, cid, terms, metas):
     edges = np.linspace(spec["zmin"], spec["zmax"], spec["nbins"] + 1)
     zmid = (edges[:-1] + edges[1:]) / 2
     # choose scales so that the angle at the lowest bin centre is ~theta0 degrees
-    theta0 = rng.choice([0.2, 0.5, 1.0])  # degrees at the first bin centre
+    theta0 = spec.get("theta0") or rng.choice([0.2, 0.5, 1.0])  # degrees at the first bin centre
     cosmo = yaw.cosmology.get_default_cosmology() if hasattr(yaw, "cosmology") else None
     from yaw.cosmology import get_default_cosmology
     cosmo = get_default_cosmology()
@@ -286,13 +286,18 @@ def run_l3_case(ctx, spec, cid, terms, metas):
     # geometry: patch centres on a line, spacing relative to theta0
     npatch = spec["npatch"]
     spacing = theta0 * (spec.get("spacing_f") or rng.choice([0.8, 1.5, 2.5, 4.0]))
-    cents = [offset(spec["ra0"], spec["dec0"], k * spacing, 0.0) for k in range(npatch)]
+    cents = spec.get("cents") or [offset(spec["ra0"], spec["dec0"], k * spacing, 0.0) for k in range(npatch)]
     centers = impl.AngularCoordinates(np.deg2rad(np.asarray(cents)))
     zvals = sorted(set(list(edges) + list(zmid) + [edges[0] * 0.5, edges[-1] * 1.1]))
 
     def sample(npts, spread, with_z):
         pts, w, z = [], [], []
+        if spec.get("uniform_sphere"):
+            # points anywhere on the sphere (patches as large as hemispheres / octants)
+            pts = [(rng.uniform(0.0, 360.0), math.degrees(math.asin(rng.uniform(-1.0, 1.0)))) for _ in range(npts)]
         for k in range(npatch):
+            if spec.get("uniform_sphere"):
+                break
             m = max(1, npts // npatch)
             pts.extend(cluster(rng, cents[k][0], cents[k][1], m, spread))
         w = [rng.randrange(1, 9) / 2.0 for _ in pts] if spec["weights"] else None
@@ -446,10 +451,17 @@ def run_l3_case(ctx, spec, cid, terms, metas):
                 cause = ("c01-prune-maxangle-below-bin-angle",
                          "pairs lost to patch pruning: the pruning angle %.4g rad (taken at max(zmin, 0.05) / zmin) is smaller than the "
                          "largest scale angle %.4g rad at bin centre z=%.4g (unit %s)" % (Mang, max(theta_hi[b]), zmid[b], unit))
-            elif unlinked:
+            elif unlinked and not links_ok and all(
+                    set(links_impl[a]) == {c for c in range(npatch) if Fraction(dist[a][c]) <= Fraction(float(rad.data[a])) + Fraction(float(rad.data[c])) + Fraction(Mang)
+                                           or Fraction(dist[a][c]) < Fraction(float(rad.data[a])) + Fraction(float(rad.data[c])) + Fraction(Mang)} for a in range(npatch)):
                 cause = ("c01-prune-radius-reference-only",
                          "pairs lost to patch pruning: link radii come from the catalog with most records only; a sparser, wider "
                          "catalog reaches beyond them (patches %d,%d unlinked, radii %s)" % (i, j, radii))
+            elif unlinked:
+                cause = ("c01-prune-link-decision-wrong",
+                         "pairs lost to patch pruning: patches %d,%d are not linked although their centres are closer than the sum of their "
+                         "extents and the largest angle (distance %.6g, extents %.6g + %.6g, largest angle %.6g rad)"
+                         % (i, j, dist[i][j], radii[i], radii[j], Mang))
             else:
                 cause = ("c01-count-lost", "pairs lost in a linked patch pair")
         elif extra:
@@ -484,6 +496,12 @@ def run_l3(ctx):
                 # physical scales beyond the turnover of the angular diameter distance
                 s.update(zmin=2.0, zmax=6.0, nbins=3, unit="Mpc", spacing_f=1.12, spreads=(0.02, 0.02), sizes=(15, 15))
             specs.append(s)
+    # deterministic: patches as large as hemispheres / quadrants (radii + largest angle beyond pi)
+    for auto, cents in ((False, [(0.0, 90.0), (0.0, -90.0)]), (True, [(0.0, 0.0), (180.0, 0.0), (90.0, 80.0)])):
+        s = l3_spec(prng, "plain")
+        s.update(auto=auto, rweight=None, nbins=1, npatch=len(cents), unit="deg", zmin=0.2, zmax=0.6, theta0=25.0, nscales=1,
+                 cents=cents, uniform_sphere=True, sizes=(36, 30), spreads=(1.0, 1.0), flavour="allsky", region="sphere")
+        specs.append(s)
     # deterministic: a measurement with the other closed side precedes the observed one
     for auto in (False, True):
         s = l3_spec(prng, "plain")
